@@ -1,6 +1,282 @@
-use gufo_snmp::ber::{BerDecoder, SnmpInt};
+//! RSX - Rust explorer for gufo_snmp: bounded-exhaustive enumeration at the crate's Rust API.
+//! usage: rsx <c01|c15|c16|c17> <quick|thorough> <out.json> | rsx replay <entry> <hex>
+
+mod c01;
+mod c15;
+mod c16;
+mod c17;
+mod refber;
+
+use std::cell::RefCell;
+use std::collections::BTreeMap;
+use std::panic::{self, AssertUnwindSafe};
+use std::sync::atomic::{AtomicU64, AtomicUsize, Ordering};
+use std::sync::{Arc, Mutex};
+use std::time::{Duration, Instant};
+
+thread_local! {
+    static LAST_PANIC: RefCell<String> = const { RefCell::new(String::new()) };
+}
+
+pub struct Violation {
+    pub sig: String,
+    pub desc: String,
+    pub case: String, // JSON object
+    pub count: u64,
+}
+
+#[derive(Default)]
+pub struct Report {
+    pub counters: BTreeMap<String, u64>,
+    pub outcomes: BTreeMap<String, u64>,
+    pub samples: Vec<String>,
+    pub violations: BTreeMap<String, Violation>,
+    pub caps: Vec<String>,
+    pub notes: Vec<String>,
+}
+
+impl Report {
+    pub fn count(&mut self, k: &str, n: u64) {
+        *self.counters.entry(k.to_string()).or_insert(0) += n;
+    }
+    pub fn outcome(&mut self, k: &str, n: u64) {
+        *self.outcomes.entry(k.to_string()).or_insert(0) += n;
+    }
+    pub fn sample(&mut self, s: String) {
+        if self.samples.len() < 4 {
+            self.samples.push(s);
+        }
+    }
+    pub fn violation(&mut self, sig: &str, desc: String, case: String) {
+        if let Some(v) = self.violations.get_mut(sig) {
+            v.count += 1;
+            return;
+        }
+        self.violations.insert(sig.to_string(), Violation { sig: sig.to_string(), desc, case, count: 1 });
+    }
+    pub fn nviol(&self) -> u64 {
+        self.violations.values().map(|v| v.count).sum()
+    }
+    pub fn merge(&mut self, o: Report) {
+        for (k, v) in o.counters {
+            *self.counters.entry(k).or_insert(0) += v;
+        }
+        for (k, v) in o.outcomes {
+            *self.outcomes.entry(k).or_insert(0) += v;
+        }
+        for s in o.samples {
+            self.sample(s);
+        }
+        for (k, v) in o.violations {
+            if let Some(e) = self.violations.get_mut(&k) {
+                e.count += v.count;
+            } else {
+                self.violations.insert(k, v);
+            }
+        }
+        for c in o.caps {
+            if !self.caps.contains(&c) {
+                self.caps.push(c);
+            }
+        }
+        for c in o.notes {
+            if !self.notes.contains(&c) {
+                self.notes.push(c);
+            }
+        }
+    }
+}
+
+pub fn hex(b: &[u8]) -> String {
+    let mut s = String::with_capacity(b.len() * 2);
+    for x in b {
+        s.push_str(&format!("{:02x}", x));
+    }
+    s
+}
+
+pub fn unhex(s: &str) -> Vec<u8> {
+    (0..s.len() / 2).map(|i| u8::from_str_radix(&s[2 * i..2 * i + 2], 16).unwrap()).collect()
+}
+
+pub fn jstr(s: &str) -> String {
+    let mut o = String::from("\"");
+    for c in s.chars() {
+        match c {
+            '"' => o.push_str("\\\""),
+            '\\' => o.push_str("\\\\"),
+            '\n' => o.push_str("\\n"),
+            c if (c as u32) < 0x20 => o.push_str(&format!("\\u{:04x}", c as u32)),
+            c => o.push(c),
+        }
+    }
+    o.push('"');
+    o
+}
+
+/// Run f under catch_unwind. Err(message with location) on panic.
+pub fn guarded<R>(f: impl FnOnce() -> R) -> Result<R, String> {
+    match panic::catch_unwind(AssertUnwindSafe(f)) {
+        Ok(r) => Ok(r),
+        Err(_) => Err(LAST_PANIC.with(|p| p.borrow().clone())),
+    }
+}
+
+/// Panic signature without line numbers / concrete numbers
+pub fn panic_class(msg: &str) -> String {
+    let mut out = String::new();
+    let mut prev_digit = false;
+    for c in msg.chars() {
+        if c.is_ascii_digit() {
+            if !prev_digit {
+                out.push('N');
+            }
+            prev_digit = true;
+        } else {
+            prev_digit = false;
+            out.push(c);
+        }
+    }
+    out.chars().take(110).collect()
+}
+
+/// First clause of a problem text (everything before the concrete values), for stable signatures
+pub fn first_clause(s: &str) -> String {
+    if s.starts_with("panic") {
+        return panic_class(s);
+    }
+    let mut end = s.len();
+    for pat in [" as ", " from ", ":", " (", " = ", " with ", " is "] {
+        if let Some(i) = s.find(pat) {
+            end = end.min(i);
+        }
+    }
+    panic_class(&s[..end])
+}
+
+pub struct Progress {
+    pub beats: Vec<AtomicU64>,
+    pub labels: Vec<Mutex<String>>,
+}
+
+/// Run `n` shards on up to 16 threads. f(shard, report, beat) must bump `beat` regularly.
+pub fn par_shards<F>(n: usize, f: F) -> Report
+where
+    F: Fn(usize, &mut Report, &AtomicU64, &Mutex<String>) + Sync,
+{
+    let threads = std::thread::available_parallelism().map(|x| x.get()).unwrap_or(4).min(16).min(n.max(1));
+    let next = AtomicUsize::new(0);
+    let done = AtomicUsize::new(0);
+    let prog = Arc::new(Progress {
+        beats: (0..threads).map(|_| AtomicU64::new(0)).collect(),
+        labels: (0..threads).map(|_| Mutex::new(String::new())).collect(),
+    });
+    let total = Mutex::new(Report::default());
+    std::thread::scope(|s| {
+        for t in 0..threads {
+            let (next, done, total, f, prog) = (&next, &done, &total, &f, prog.clone());
+            s.spawn(move || {
+                let mut rep = Report::default();
+                loop {
+                    let i = next.fetch_add(1, Ordering::SeqCst);
+                    if i >= n {
+                        break;
+                    }
+                    f(i, &mut rep, &prog.beats[t], &prog.labels[t]);
+                }
+                done.fetch_add(1, Ordering::SeqCst);
+                total.lock().unwrap().merge(rep);
+            });
+        }
+        // watchdog: a thread that makes no progress for 30 s is stuck inside the subject
+        let prog = prog.clone();
+        let done = &done;
+        s.spawn(move || {
+            let mut last: Vec<(u64, Instant)> = (0..threads).map(|_| (0, Instant::now())).collect();
+            while done.load(Ordering::SeqCst) < threads {
+                std::thread::sleep(Duration::from_millis(500));
+                for t in 0..threads {
+                    let b = prog.beats[t].load(Ordering::Relaxed);
+                    if b != last[t].0 {
+                        last[t] = (b, Instant::now());
+                    } else if last[t].1.elapsed() > Duration::from_secs(30) && b != u64::MAX {
+                        let label = prog.labels[t].lock().unwrap().clone();
+                        if label.is_empty() {
+                            continue;
+                        }
+                        println!("{{\"hang\": {}}}", jstr(&label));
+                        std::process::exit(3);
+                    }
+                }
+            }
+        });
+    });
+    total.into_inner().unwrap()
+}
+
+fn write_report(path: &str, rep: &Report, wall: f64) {
+    let mut s = String::from("{\n");
+    s.push_str("\"counters\": {");
+    s.push_str(&rep.counters.iter().map(|(k, v)| format!("{}: {}", jstr(k), v)).collect::<Vec<_>>().join(", "));
+    s.push_str("},\n\"outcomes\": {");
+    s.push_str(&rep.outcomes.iter().map(|(k, v)| format!("{}: {}", jstr(k), v)).collect::<Vec<_>>().join(", "));
+    s.push_str("},\n\"samples\": [");
+    s.push_str(&rep.samples.join(", "));
+    s.push_str("],\n\"caps\": [");
+    s.push_str(&rep.caps.iter().map(|c| jstr(c)).collect::<Vec<_>>().join(", "));
+    s.push_str("],\n\"notes\": [");
+    s.push_str(&rep.notes.iter().map(|c| jstr(c)).collect::<Vec<_>>().join(", "));
+    s.push_str("],\n\"violations\": [");
+    s.push_str(
+        &rep.violations
+            .values()
+            .map(|v| format!("{{\"sig\": {}, \"desc\": {}, \"case\": {}, \"count\": {}}}", jstr(&v.sig), jstr(&v.desc), v.case, v.count))
+            .collect::<Vec<_>>()
+            .join(",\n"),
+    );
+    s.push_str(&format!("],\n\"wall_s\": {:.3}\n}}\n", wall));
+    std::fs::write(path, s).expect("cannot write report");
+}
+
 fn main() {
-    let r = SnmpInt::from_ber(&[2, 8, 0xff, 0xff, 0xff, 0xff, 0xff, 0xff, 0xff, 0xfe]);
-    match r { Ok((_, v)) => println!("{}", i64::from(v)), Err(_) => println!("err") }
-    gufo_snmp::verif::rng_force(&[1]);
+    panic::set_hook(Box::new(|info| {
+        let loc = info.location().map(|l| format!("{}:{}", l.file(), l.line())).unwrap_or_default();
+        let msg = if let Some(s) = info.payload().downcast_ref::<&str>() {
+            s.to_string()
+        } else if let Some(s) = info.payload().downcast_ref::<String>() {
+            s.clone()
+        } else {
+            "panic".to_string()
+        };
+        LAST_PANIC.with(|p| *p.borrow_mut() = format!("{} @ {}", msg, loc));
+    }));
+    let args: Vec<String> = std::env::args().collect();
+    if args.len() < 2 {
+        eprintln!("usage: rsx <c01|c15|c16|c17> <quick|thorough> <out.json> | rsx replay <check> <json>");
+        std::process::exit(2);
+    }
+    let t0 = Instant::now();
+    if args[1] == "replay" {
+        let out = match args[2].as_str() {
+            "c01" => c01::replay(&args[3], &args[4]),
+            "c15" => c15::replay(&args[3], &args[4]),
+            "c16" => c16::replay(&args[3], &args[4]),
+            "c17" => c17::replay(&args[3], &args[4]),
+            _ => "unknown".to_string(),
+        };
+        println!("{}", out);
+        return;
+    }
+    let thorough = args[2] == "thorough";
+    let rep = match args[1].as_str() {
+        "c01" => c01::run(thorough),
+        "c15" => c15::run(thorough),
+        "c16" => c16::run(thorough),
+        "c17" => c17::run(thorough),
+        _ => {
+            eprintln!("unknown check");
+            std::process::exit(2);
+        }
+    };
+    write_report(&args[3], &rep, t0.elapsed().as_secs_f64());
 }
